@@ -1,16 +1,20 @@
 import Driver.C01
+import Driver.C03
 import Driver.C14
 import Driver.C15
 import Driver.C16
+import Driver.Util
 /-! Line-protocol driver: one request per line `Cxx <op> <args…>`, one answer
 per line. Executes the Lean models for the correspondence check. -/
 
 def dispatch (line : String) : String :=
   match line.trimAscii.toString.splitOn " " with
   | "C01" :: args => Driver.C01.handle args
+  | "C03" :: args => Driver.C03.handle args
   | "C14" :: args => Driver.C14.handle args
   | "C15" :: args => Driver.C15.handle args
   | "C16" :: args => Driver.C16.handle args
+  | "util" :: args => Driver.Util.handle args
   | ["ping"] => "pong"
   | _ => "bad-op"
 
